@@ -98,6 +98,9 @@ def judge(case, rep, S):
     first_obj = None
     for j_, s in enumerate(presentations[:3]):
         o = S["SP"](s)
+        if j_ == 1 and (p + n + z) % 2 == 0:
+            o.get_kappa()                    # kappa first (on the segregated presentation, where a raw ratio above 1 is likely)
+            rep.cnt("kappa_before_deltamax")
         if j_ == 2 and (p + 2 * n + z) % 4 == 0:
             # other legal queries first: none of them may change what delta-max is
             SALT.salt(S, o, "".join(s), rng, rep, k=2, cheap=False)
